@@ -558,6 +558,61 @@ var vC14ConstTable = map[string]uint8{
 	"SHA1": dns.SHA1, "SHA256": dns.SHA256, "GOST94": dns.GOST94, "SHA384": dns.SHA384, "SHA512": dns.SHA512,
 }
 
+// vC14Corpus is corpus/C14/regressions.json.
+type vC14Corpus struct {
+	Keytags []struct {
+		Note     string `json:"note"`
+		Flags    uint16 `json:"flags"`
+		Protocol uint8  `json:"protocol"`
+		Alg      uint8  `json:"alg"`
+		Pk       string `json:"pk"`
+	} `json:"keytags"`
+	Nsec []struct {
+		Note   string   `json:"note"`
+		Zone   string   `json:"zone"`
+		Owner  string   `json:"owner"`
+		Next   []string `json:"next"`
+		Labels uint8    `json:"labels"`
+	} `json:"nsec"`
+	RSAUsable []struct {
+		Note string `json:"note"`
+		NHex string `json:"n_hex"`
+		E    string `json:"e"`
+	} `json:"rsa_usable"`
+	Suffix []struct {
+		Note string `json:"note"`
+		A    string `json:"a"`
+		B    string `json:"b"`
+	} `json:"suffix"`
+	Synth []struct {
+		Note   string      `json:"note"`
+		Owner  string      `json:"owner"`
+		Target string      `json:"target"`
+		Dnames [][2]string `json:"dnames"`
+	} `json:"synth"`
+}
+
+// vC14LoadCorpus reads $VERIF_CORPUS/regressions.json; a run without a corpus directory
+// (a driver started by hand) replays nothing, a corpus that does not parse is a broken driver.
+func vC14LoadCorpus(t *testing.T) vC14Corpus {
+	var c vC14Corpus
+	dir := os.Getenv("VERIF_CORPUS")
+	if dir == "" {
+		return c
+	}
+	b, err := os.ReadFile(dir + "/regressions.json")
+	if err != nil {
+		if os.IsNotExist(err) {
+			return c
+		}
+		t.Fatal(err)
+	}
+	if err := json.Unmarshal(b, &c); err != nil {
+		t.Fatal("corpus/C14/regressions.json: ", err)
+	}
+	return c
+}
+
 func TestVerifC14Prim(t *testing.T) {
 	tr := vC14Open(t)
 	defer tr.f.Close()
@@ -576,6 +631,22 @@ func TestVerifC14Prim(t *testing.T) {
 	// the crypto.Hash identities the model uses as hash ids
 	if crypto.SHA1 != 3 || crypto.SHA256 != 5 || crypto.SHA384 != 6 || crypto.SHA512 != 7 {
 		t.Fatal("crypto.Hash numbering changed")
+	}
+
+	// fixed regression inputs first (corpus/C14/regressions.json): the minimal inputs of every
+	// seeded change and mutation this check has caught
+	corpus := vC14LoadCorpus(t)
+	for _, c := range corpus.Keytags {
+		k := &dns.DNSKEY{Hdr: dns.RR_Header{Name: "example.", Rrtype: dns.TypeDNSKEY, Class: dns.ClassINET}, Flags: c.Flags, Protocol: c.Protocol, Algorithm: c.Alg, PublicKey: c.Pk}
+		vC14EmitKeyTag(tr, k, "corpus", map[string]any{"note": c.Note})
+	}
+	for _, c := range corpus.RSAUsable {
+		n, ok1 := new(big.Int).SetString(c.NHex, 16)
+		e, ok2 := new(big.Int).SetString(c.E, 10)
+		if !ok1 || !ok2 {
+			t.Fatalf("corpus: bad rsa_usable entry %q", c.Note)
+		}
+		vC14EmitRSAUsable(tr, n, e, "rsa-usable-corpus")
 	}
 
 	// small RSA keys for the raw verifier (it has no size floor of its own)
@@ -983,6 +1054,10 @@ func vC14CaseRSAUsable(tr *vC14Trace, r *rand.Rand) {
 			e.Add(e, big.NewInt(1)) // even
 		}
 	}
+	vC14EmitRSAUsable(tr, n, e, "rsa-usable")
+}
+
+func vC14EmitRSAUsable(tr *vC14Trace, n, e *big.Int, kind string) {
 	var got bool
 	fail := ""
 	if p := vC14Guard(func() { got = usableRSAKey(n, e) }); p != "" {
@@ -993,7 +1068,7 @@ func vC14CaseRSAUsable(tr *vC14Trace, r *rand.Rand) {
 	if fail == "" && got != want {
 		fail = fmt.Sprintf("usableRSAKey=%v for a %d-bit modulus and a %d-bit exponent; the documented limits say %v", got, n.BitLen(), e.BitLen(), want)
 	}
-	tr.emit("rsa-usable", fmt.Sprintf("CaseRSAUsable %s %s %s", vC14Big(n), vC14Big(e), vC14Bool(got)), fail, true,
+	tr.emit(kind, fmt.Sprintf("CaseRSAUsable %s %s %s", vC14Big(n), vC14Big(e), vC14Bool(got)), fail, true,
 		map[string]any{"n_bits": n.BitLen(), "e": e.String(), "got": got})
 }
 
